@@ -1,24 +1,45 @@
 #!/bin/sh
-# usage: tools_seed_import.sh <property-id> <worktree-with-MUTANTS>
-# Validates each mutant against the current /repo HEAD in a scratch worktree and stores it under /verif/seeded/.
+# usage: tools_seed_import.sh <property-id> <worktree-with-MUTANTS> <first-new-index>
+# Validates each mutant of the worktree against the current /repo HEAD in a scratch worktree (suite passes with it,
+# demonstration fails with it and passes without) and stores the confirmed ones as /verif/seeded/<id>-m<k>/.
 export GOFLAGS=-mod=mod GOPROXY=off GOSUMDB=off GOTOOLCHAIN=local
-id=$1; src=$2
+id=$1; src=$2; n=${3:-1}
 for k in 1 2; do
   d=$src/MUTANTS/m$k
   [ -f $d/patch.diff ] || { echo "$id m$k: no patch"; continue; }
   wt=/tmp/seedchk-$id-$k
   rm -rf $wt; git -C /repo worktree add --detach $wt HEAD >/dev/null 2>&1
   cd $wt
+  tests=$(grep -ho '^func Test[A-Za-z0-9_]*' $d/zz_demo_test.go | sed 's/func //' | tr '\n' '|' | sed 's/|$//')
   cp $d/zz_demo_test.go .
-  base=$(go test -vet=off -count=1 -run 'ZZ|Demo|C[0-9][0-9]' . 2>&1 | tail -1)
+  base=$(go test -vet=off -count=1 -run "^($tests)\$" . 2>&1 | tail -1)
+  verdict=reject
   if git apply --exclude='MUTANTS/*' $d/patch.diff 2>/dev/null; then
     rm zz_demo_test.go
     suite=$(go test -vet=off -count=1 ./... 2>&1 | grep -v "no test files" | tail -1)
     cp $d/zz_demo_test.go .
-    mut=$(go test -vet=off -count=1 -run 'ZZ|Demo|C[0-9][0-9]' . 2>&1 | tail -1)
-    echo "$id m$k: base=[$base] suite-with-mutant=[$suite] demo-with-mutant=[$mut]"
+    mut=$(go test -vet=off -count=1 -run "^($tests)\$" . 2>&1 | tail -1)
+    case "$base" in ok*) case "$suite" in ok*) case "$mut" in FAIL*) verdict=keep;; esac;; esac;; esac
+    echo "$id m$k -> m$n: base=[$base] suite-with-mutant=[$suite] demo-with-mutant=[$mut] => $verdict"
   else
     echo "$id m$k: PATCH DOES NOT APPLY to current HEAD; base=[$base]"
   fi
   cd /; git -C /repo worktree remove --force $wt
+  if [ $verdict = keep ]; then
+    out=/verif/seeded/$id-m$n; mkdir -p $out
+    cp $d/patch.diff $out/patch.diff; cp $d/zz_demo_test.go $out/zz_demo_test.go; cp $d/notes.md $out/notes.md 2>/dev/null
+    python3 - "$id" "$out" "$tests" <<'PY'
+import json,sys,subprocess
+pid,out,tests=sys.argv[1:4]
+head=subprocess.check_output(['git','-C','/repo','log','--format=%h','-1']).decode().strip()
+files=[l.split(' b/')[1].strip() for l in open(out+'/patch.diff') if l.startswith('diff --git')]
+title=''
+try:
+    for l in open(out+'/notes.md'):
+        if l.strip().startswith('#'): title=l.strip('# \n'); break
+except Exception: pass
+json.dump({"property":pid,"title":title,"files":files,"demo_tests":tests.split('|'),"validated_against":head,"source":"independent sub-agent, round 3 (property text and scratch worktree only)"},open(out+'/meta.json','w'),indent=1)
+PY
+    n=$((n+1))
+  fi
 done
